@@ -36,6 +36,9 @@ class SchedRng:
     def random(self) -> float:
         return 0.75
 
+    def uniform(self, a, b) -> float:
+        return a
+
 
 def install_trio_determinism(choices: Optional[List[int]] = None) -> SchedRng:
     import trio._core._run as run
